@@ -16,6 +16,12 @@ Theorem C14_census : forallb loop_safe map_loops = true.
 Proof. vm_compute. reflexivity. Qed.
 Print Assumptions C14_census.
 
+(* no message handler, block handler, validation or query reads the wall clock, the environment or a random source
+   (census regenerated from the source on every run; the one read found feeds a telemetry timer) *)
+Theorem C14_no_wall_clock : forallb clock_use_safe clock_uses = true.
+Proof. vm_compute. reflexivity. Qed.
+Print Assumptions C14_no_wall_clock.
+
 Theorem C14_collect_then_sort : forall bs bs', Permutation bs bs' -> bidders_of bs = bidders_of bs'.
 Proof. exact bidders_of_perm. Qed.
 Print Assumptions C14_collect_then_sort.
